@@ -57,3 +57,7 @@ claim("C05", "bounded-exhaustive enumeration of operation histories on the real 
       "For every explored history (all multisets of <=3 (thorough 4) operations, every ordering) 24 patterns via ematch_all and 10 multi-patterns via multi_ematch: every substitution binds all variables to well-formed invocations, the instantiated pattern is found by node-wise lookup, each multi-pattern equation holds, and the observable state is unchanged by matching.",
       "Pattern pools are fixed lists over the Sym language (repeated variables, repeated/bound slots, nested nodes, shared slots between equations).",
       "DESIGN.md 5 C05")
+claim("C03", "bounded-exhaustive enumeration of start terms x rule subsets x substitution methods driven through the real rewriting engine, every e-node evaluated under all environments of a finite-field model",
+      "All start terms of size <=3 (thorough 4) plus binder-heavy specials x every subset of <=3 of 20 model-valid rules, the full pool, and let-subst pairs, under SynExprSubst and ExtractionSubst, via apply_rewrites (up to 3/4 iterations) and Runner::run. After every iteration every e-node of every class is evaluated for ALL environments in F_5 (thorough also F_7) against its class table, including slots the class does not have, and the root class against the directly evaluated start term. Rules are self-tested against the model first.",
+      "Prime fields p in {5,7}; e-graphs above the node budget are skipped; the rule self-test models pattern semantics (capture by pattern slot names, admissible instantiations).",
+      "DESIGN.md 3.3, 5 C03")
